@@ -59,6 +59,7 @@ func runBalanceCase(c *core.Ctx, kind string) {
 			drv.probe()
 		}
 	}
+	m.Final()
 	a.Walk(c, a, a.M.Size())
 	c.Nontrivial()
 }
